@@ -322,6 +322,16 @@ func pkgFaults(d pkgDoc, stride int, emit emitFn) {
 					return with(i, splice(m.data, s0, 0, strings.Repeat(el, times)))
 				})
 			}
+			if !selfClosing && !strings.Contains(string(m.data[l[1]:e0-len(name)-3]), "<") {
+				// an element that holds text only: the text becomes very long (one word repeated; pipes; one unbroken run)
+				c0, c1 := l[1], e0-len(name)-3
+				for _, big := range []struct{ what, unit string }{{"600 KB of words", "lorem "}, {"600 KB of pipes", "|"}, {"a 600 KB word", "x"}, {"300 KB of line breaks", "a\n"}} {
+					big := big
+					add(fmt.Sprintf("%s: text of <%s> := %s", m.name, name, big.what), func() []byte {
+						return with(i, splice(m.data, c0, c1-c0, strings.Repeat(big.unit, 600000/len(big.unit))))
+					})
+				}
+			}
 			if !selfClosing {
 				add(fmt.Sprintf("%s: element <%s> nested 3000 deep in copies of itself", m.name, name), func() []byte {
 					return with(i, splice(m.data, s0, e0-s0, strings.Repeat(tag, 3000)+el+strings.Repeat("</"+name+">", 3000)))
